@@ -1,11 +1,12 @@
 """C17 — spelling, voice and key estimation are total, well-formed and pitch-preserving (partial).
 
-Engine A, pitch-preservation half only: `compute_morphetic_pitch` followed by
+Engine A.  Pitch preservation: `compute_morphetic_pitch` followed by
 `p2pn` (the last two stages of ps13 stage 1) with a symbolic MIDI pitch and an
 ARBITRARY morph 0..6: whatever morph the estimator chooses, the spelled pitch
 sounds the MIDI pitch, so a score imported from MIDI contains the file's
-pitches.  The morph estimation itself (chroma-vector windows), voice separation
-and key estimation are dense numeric kernels and are outside the encoding.
+pitches.  Voice estimation: well-formedness of the numbering on small integer grids (enumeration by realisation).
+Key estimation: the pitch-class distribution symbolically (octave / transposition / rescaling), the correlation kernel
+end to end by realisation.  The morph estimation itself (chroma-vector windows) is outside the encoding.
 """
 from engine.hdef import H
 from engine.sym import check, must_not_raise, require
@@ -54,11 +55,244 @@ def make_spell(n):
     return h
 
 
+def _note_array(rows, units="beat"):
+    import numpy as np
+
+    return np.array([(float(o), float(d), int(p)) for (o, d, p) in rows],
+                    dtype=[("onset_" + units, "f4"), ("duration_" + units, "f4"), ("pitch", "i4")])
+
+
+def make_voices(pitches, mono, dmin=0, dmax=2, omax=2):
+    """estimate_voices on n notes with concrete pitches and symbolic onset / duration (small integer grids, realised:
+    VoSA is a numeric kernel on numpy arrays, the solver enumerates the grid)."""
+    n = len(pitches)
+
+    def h(o0: int, d0: int, o1: int, d1: int, o2: int, d2: int, o3: int, d3: int):
+        from engine import sym
+        from partitura.musicanalysis import voice_separation as VS
+
+        O, D = [o0, o1, o2, o3], [d0, d1, d2, d3]
+        for i in range(4):
+            if i < n:
+                require(0 <= O[i] <= omax)
+                require(dmin <= D[i] <= dmax)
+            else:
+                require(O[i] == 0)
+                require(D[i] == 0)
+        O = [int(sym.realize(x)) for x in O[:n]]
+        D = [int(sym.realize(x)) for x in D[:n]]
+        rows = list(zip(O, D, pitches))
+        v = must_not_raise(VS.estimate_voices, _note_array(rows), monophonic_voices=mono, _what="estimate_voices")
+        v = [int(x) for x in v]
+        check(len(v) == n, "one voice per input note", len(v), n)
+        check(all(x >= 1 for x in v), "voice numbers are positive", v)
+        check(set(v) == set(range(1, max(v) + 1)), "voices are not numbered from 1 without gaps", v, rows)
+        if not mono:
+            for i in range(n):
+                for j in range(i + 1, n):
+                    if O[i] == O[j] and D[i] == D[j]:
+                        check(v[i] == v[j], "chord mode: identical onset and duration, different voices", rows, v)
+        # the estimate does not modify its input and is a function of it
+        v2 = [int(x) for x in VS.estimate_voices(_note_array(rows), monophonic_voices=mono)]
+        check(v == v2, "two runs on the same input differ", v, v2)
+        return v
+
+    return h
+
+
+def _inst_voices(tier):
+    out = [{"pitches": [60, 64, 72], "mono": True}, {"pitches": [60, 64, 64], "mono": False}]
+    if tier != "quick":
+        out += [{"pitches": [60, 64, 72], "mono": False}, {"pitches": [62, 62, 62], "mono": True},
+                {"pitches": [73, 62, 63, 81], "mono": True, "dmin": 2, "dmax": 4}, {"pitches": [73, 62, 63, 81], "mono": False, "dmin": 2, "dmax": 4},
+                {"pitches": [60, 60, 67, 67], "mono": True, "dmin": 0, "dmax": 2}, {"pitches": [60, 60, 67, 67], "mono": False, "dmin": 0, "dmax": 2}]
+    return out
+
+
+def _valid_key_names():
+    from partitura.utils.globals import KEYS
+
+    return {step + ("m" if mode == "minor" else ""): (i % 12, mode) for i, (step, mode, fifths) in enumerate(KEYS)}
+
+
+PC = {"C": 0, "D": 2, "E": 4, "F": 5, "G": 7, "A": 9, "B": 11}
+
+
+def _tonic(name):
+    minor = name.endswith("m")
+    root = name[:-1] if minor else name
+    pc = PC[root[0]] + root.count("#") - root.count("b")
+    return pc % 12, ("minor" if minor else "major")
+
+
+def make_key_dist(n, k):
+    """The duration-weighted pitch-class distribution (the only place where the notes enter key estimation) with
+    symbolic pitches and symbolic (real) durations: octave shifts leave it unchanged, transposition by k rotates it
+    by k, rescaling the durations rescales it."""
+
+    def h(p0: int, p1: int, p2: int, d0: float, d1: float, d2: float):
+        import numpy as np
+        from engine import sym
+        from partitura.musicanalysis import key_identification as K
+
+        P, D = [p0, p1, p2][:n], [d0, d1, d2][:n]
+        for p in P:
+            require(21 <= p <= 108 - 12)
+        for d in D:
+            require(0 < d <= 64)
+        for x in ([p1, p2, d1, d2][n - 1:2] + [p1, p2, d1, d2][2 + n - 1:]):
+            require(x == (21 if isinstance(x, int) else 1))
+
+        def dist(pitches, durs):
+            if sym._ACTIVE["symbolic"]:
+                from envmodels.symnp import NP_OBJ
+
+                na = NP_OBJ.array([(i, durs[i], pitches[i]) for i in range(n)],
+                                  dtype=[("onset_beat", "f4"), ("duration_beat", "f4"), ("pitch", "i4")])
+            else:
+                na = _note_array([(i, durs[i], pitches[i]) for i in range(n)])
+            seen = []
+
+            def rec(x, y):
+                seen.append(x)
+                return 0.0
+
+            must_not_raise(K._similarity_with_pitch_profile, na, key_profiles=K.KRUMHANSL_KESSLER[:1], similarity_func=rec,
+                           _what="_similarity_with_pitch_profile")
+            return [v for v in np.asarray(seen[0]).reshape(-1).tolist()]
+
+        base = dist(P, D)
+        check(len(base) == 12, "twelve pitch classes", len(base))
+        tol = 1e-4  # durations are stored as float32 when concrete
+        tot = 0
+        for v in base:
+            tot = tot + v
+        ref = 0
+        for d in D:
+            ref = ref + d
+        check(abs(tot - ref) <= tol * n, "the distribution loses or invents duration", tot, ref)
+        up = dist([p + 12 for p in P], D)
+        for a, b in zip(base, up):
+            check(abs(a - b) <= tol, "octave shift changes the pitch-class distribution", base, up)
+        tr = dist([p + k for p in P], D)
+        for i in range(12):
+            check(abs(tr[(i + k) % 12] - base[i]) <= tol, "transposition does not rotate the distribution", k, base, tr)
+        sc = dist(P, [2 * d for d in D])
+        for a, b in zip(base, sc):
+            check(abs(2 * a - b) <= 2 * tol, "rescaled durations do not rescale the distribution", base, sc)
+        return [float(x) for x in base]
+
+    return h
+
+
+def make_key_e2e(context, profiles, k):
+    """estimate_key end to end: a concrete context plus one note of symbolic pitch (realised: correlations are a float
+    kernel).  Valid name, octave-shift and duration-rescaling invariance, transposition equivariance; inputs whose two
+    best correlations are closer than 1e-9 (ties decided by rounding noise) are outside the claim."""
+
+    def h(p: int, dsel: int):
+        import numpy as np
+        from engine import sym
+        from partitura.musicanalysis import key_identification as K
+
+        require(21 <= p <= 108)
+        require(0 <= dsel <= 2)
+        p = int(sym.realize(p))
+        d = [1.0, 2.0, 0.5][int(sym.realize(dsel))]
+        rows = [(i, dd, pp) for i, (dd, pp) in enumerate(context)] + [(len(context), d, p)]
+        valid = _valid_key_names()
+
+        def est(rws):
+            na = _note_array(rws)
+            name = must_not_raise(K.estimate_key, na, key_profiles=profiles, _what="estimate_key")
+            corrs = np.sort(K._similarity_with_pitch_profile(na, key_profiles={"krumhansl_kessler": K.KRUMHANSL_KESSLER, "temperley": K.CMBS, "kostka_payne": K.KOSTKA_PAYNE}[profiles]))
+            return name, float(corrs[-1] - corrs[-2])
+
+        name, gap = est(rows)
+        check(name in valid, "not a valid key name", name)
+        if not (gap > 1e-9):
+            return [name, "tie"]
+        pcs = [r[2] for r in rows]
+        for sh in (12, -12, 24, -24):
+            if min(pcs) + sh >= 21 and max(pcs) + sh <= 108:
+                n2, _ = est([(o, dd, pp + sh) for (o, dd, pp) in rows])
+                check(n2 == name, "octave shift changes the key", sh, name, n2, rows)
+        n3, _ = est([(o, dd * 2, pp) for (o, dd, pp) in rows])
+        check(n3 == name, "rescaling all durations changes the key", name, n3, rows)
+        n3b, _ = est([(o * 3 + 1, dd, pp) for (o, dd, pp) in rows])
+        check(n3b == name, "moving the onsets changes the key", name, n3b, rows)
+        sh = k if max(pcs) + k <= 108 else k - 12
+        if min(pcs) + sh >= 21:
+            n4, _ = est([(o, dd, pp + sh) for (o, dd, pp) in rows])
+            t0, m0 = _tonic(name)
+            t1, m1 = _tonic(n4)
+            check(m0 == m1 and t1 == (t0 + k) % 12, "transposition by k does not transpose the tonic by k", k, name, n4, rows)
+        return [name, "ok"]
+
+    return h
+
+
+CONTEXTS = {"cmaj": [(1.0, 60), (2.0, 64), (1.0, 67), (0.5, 65)], "amin": [(1.0, 57), (1.0, 60), (2.0, 64), (0.5, 68)],
+            "top": [(1.0, 96), (1.0, 100), (1.0, 103), (0.5, 101)], "one": [(1.0, 66)]}
+
+
+def _inst_key_e2e(tier):
+    out = [{"context": "cmaj", "profiles": "krumhansl_kessler", "k": 5}, {"context": "top", "profiles": "kostka_payne", "k": 2}]
+    if tier != "quick":
+        out = [{"context": c, "profiles": pr, "k": k} for c in CONTEXTS for pr, k in
+               (("krumhansl_kessler", 1), ("krumhansl_kessler", 7), ("temperley", 5), ("kostka_payne", 2), ("kostka_payne", 11))]
+    return out
+
+
+def _mk_key_e2e(context, profiles, k):
+    return make_key_e2e(CONTEXTS[context], profiles, k)
+
+
+def profile_table_vectors():
+    """static tables: the 24 profiles of each set are rotations of the major / minor profile, aligned with KEYS"""
+    import numpy as np
+    from partitura.musicanalysis import key_identification as K
+    from partitura.utils.globals import KEYS
+
+    bad = []
+    for nm in ("KRUMHANSL_KESSLER", "CMBS", "KOSTKA_PAYNE"):
+        M = getattr(K, nm)
+        if M.shape != (24, 12):
+            bad.append((nm, "shape", M.shape))
+            continue
+        for i in range(24):
+            base = M[0] if i < 12 else M[12]
+            if not np.array_equal(M[i], np.roll(base, i % 12)):
+                bad.append((nm, "row", i))
+    for i, (step, mode, fifths) in enumerate(KEYS):
+        t, m = _tonic(step + ("m" if mode == "minor" else ""))
+        if t != i % 12 or m != ("major" if i < 12 else "minor"):
+            bad.append(("KEYS", i, step, mode))
+    return bad
+
+
 HARNESSES = [
     H("spell_pitch", make_spell, lambda tier: [{"n": 1}] + ([{"n": 2}] if tier != "quick" else []),
       models=["symnp:partitura.musicanalysis.pitch_spelling"], budget={"quick": 200, "thorough": 900},
       functions=["pitch_spelling.compute_morphetic_pitch", "pitch_spelling.p2pn", "pitch_spelling.chromatic_pitch_from_midi"],
       bounds="MIDI pitch 21..108 symbolic, morph 0..6 symbolic (any morph, not only those the estimator would choose), 1-2 notes",
       outside="compute_chroma_vector_array / compute_morph_array (choice of the morph, hence the bound |alter| <= 2 and the "
-              "order independence), estimate_voices (VoSA), estimate_key (correlations), load_score_midi"),
+              "order independence), load_score_midi"),
+    H("voices", make_voices, _inst_voices, models=[], budget={"quick": 200, "thorough": 1500}, reals_only=False,
+      functions=["voice_separation.estimate_voices", "prepare_notearray", "rename_voices", "VoSA.__init__", "VoSA.make_contigs",
+                 "VoSA.estimate_voices", "pairwise_cost", "est_best_connections"],
+      bounds="3-4 notes with concrete pitches per instance, symbolic onset 0..2 and duration (0..2 or 2..4) on an integer grid, "
+             "realised (the solver enumerates the grid: 9^n inputs per instance); both voice modes",
+      outside="more than 4 notes, non-integer onsets, order independence, quality of the separation"),
+    H("key_dist", make_key_dist, lambda tier: [{"n": 2, "k": 5}] + ([{"n": 2, "k": 1}, {"n": 3, "k": 7}] if tier != "quick" else []),
+      models=["symnp:partitura.musicanalysis.key_identification,partitura.utils.music"], budget={"quick": 200, "thorough": 1500},
+      functions=["key_identification._similarity_with_pitch_profile (pitch-class distribution)", "music.get_time_units_from_note_array"],
+      bounds="2-3 notes, symbolic MIDI pitch 21..96, symbolic real duration in (0, 64]; transposition k concrete per instance; "
+             "the distribution is observed through the similarity_func argument",
+      outside="the correlation / argmax kernel (harness key_e2e and the static profile-table check), more notes"),
+    H("key_e2e", _mk_key_e2e, _inst_key_e2e, models=[], budget={"quick": 200, "thorough": 900}, reals_only=False,
+      functions=["key_identification.estimate_key", "ks_kid", "_similarity_with_pitch_profile", "corr", "format_key"],
+      bounds="a concrete 1-4 note context per instance plus one note with symbolic pitch 21..108 and duration in {0.5, 1, 2} "
+             "(realised: 264 inputs per instance); listed profile sets and transposition k",
+      outside="inputs whose two best correlations differ by less than 1e-9; longer inputs"),
 ]
